@@ -22,7 +22,9 @@ CFG = dict(
          "untracked/preDNAT/applyOnForward, Types in 8 spellings) and deletes, tier updates and deletes, endpoint "
          "updates and deletes, in-sync at an arbitrary point, Flush at arbitrary points; 5/6 of the cases respect the "
          "upstream alternation contract, 1/6 are unconstrained; 1/4 contain the directed pattern match/unmatch/flush/"
-         "update-while-inactive/match; 1/8 use names that extend one another by '-' or '.'.  Observed: what every Flush "
+         "update-while-inactive/match; 1/8 use names that extend one another by '-' or '.'; 3/16 end with the pattern "
+         "'policy names tier T while T does not exist (next to a policy of a never-existing tier), flush, T created "
+         "with no order and no default action'.  Observed: what every Flush "
          "hands to OnEndpointTierUpdate (tier name, order, default action, ordered policies with order/flags/tier) and "
          "the real tierInfoToProtoTierInfo of every emitted list.  non-trivial = some non-empty tier list was emitted "
          "and (a match started and stopped between two flushes, or some emitted tier held >= 2 policies); distinct by ops",
